@@ -6,7 +6,6 @@ package main
 import (
 	"fmt"
 	"go/constant"
-	"go/token"
 	"go/types"
 	"strings"
 
@@ -22,69 +21,6 @@ func constInt(v ssa.Value) (int64, bool) {
 	}
 	n, ok := constant.Int64Val(c.Value)
 	return n, ok
-}
-
-// lenGuardAbove: the guards imply len(base) > k.
-func (c *Ctx) lenGuardAbove(guards []Lit, base ssa.Value, k int64) bool {
-	P := c.P
-	bd := P.Desc(base)
-	isLen := func(v ssa.Value) bool {
-		x := lenOf(v)
-		return x != nil && P.Desc(x) == bd
-	}
-	var check func(l Lit) bool
-	check = func(l Lit) bool {
-		switch l.Kind {
-		case "lt":
-			// a < len  (positive)  => len > a
-			if l.Pos && isLen(l.Y) {
-				if a, ok := constInt(l.X); ok && a >= k {
-					return true
-				}
-			}
-			// !(len < a)  => len >= a
-			if !l.Pos && isLen(l.X) {
-				if a, ok := constInt(l.Y); ok && a > k {
-					return true
-				}
-			}
-		case "eq":
-			var other ssa.Value
-			if isLen(l.X) {
-				other = l.Y
-			} else if isLen(l.Y) {
-				other = l.X
-			}
-			if other != nil {
-				if a, ok := constInt(other); ok {
-					if l.Pos && a > k {
-						return true
-					}
-					if !l.Pos && a == 0 && k == 0 {
-						return true
-					}
-				}
-			}
-		}
-		return false
-	}
-	for _, l := range guards {
-		if check(l) {
-			return true
-		}
-		if (l.Kind == "or" && !l.Pos) || (l.Kind == "and" && l.Pos) {
-			for _, s := range l.Subs {
-				s2 := s
-				if l.Kind == "or" {
-					s2.Pos = !s.Pos // !(a||b): each disjunct false
-				}
-				if check(s2) {
-					return true
-				}
-			}
-		}
-	}
-	return false
 }
 
 // reviewedBounds: arithmetic bounds that need linear reasoning. Each entry names the guard that must still be
@@ -141,8 +77,16 @@ func (c *Ctx) boundsDischarged(fn *ssa.Function, b *ssa.BasicBlock, ins ssa.Inst
 	P := c.P
 	bd := P.Desc(base)
 	fname := FuncName(fn)
+	// ---- linear arithmetic over the computation of the operands and the guards of the access
 	if kind == "slice" {
-		return c.sliceReviewed(fn, ins.(*ssa.Slice), guards)
+		sl := ins.(*ssa.Slice)
+		if sl.Max == nil && c.linInRange(ins, base, sl.Low, sl.High, false) {
+			return true, "0 <= low <= high <= len(x) follows from the operands' computation and the guards (linear arithmetic)"
+		}
+		return false, "slice bounds are not implied by the operands' computation and the guards: " + short(bd)
+	}
+	if c.linInRange(ins, base, idx, nil, true) {
+		return true, "0 <= i < len(x) follows from the index computation and the guards (linear arithmetic)"
 	}
 	// ---- constant index
 	if k, ok := constInt(idx); ok {
@@ -168,241 +112,15 @@ func (c *Ctx) boundsDischarged(fn *ssa.Function, b *ssa.BasicBlock, ins ssa.Inst
 				return false, fmt.Sprintf("match[%d]: the pattern has %d capture groups / the match is not nil-checked", k, ng)
 			}
 		}
-		if c.lenGuardAbove(guards, base, k) {
-			return true, fmt.Sprintf("constant index %d under a guard implying len > %d", k, k)
-		}
 		// x.List[0] after an index [0] on the same list under the same guards (second access through elem[0])
 		return false, fmt.Sprintf("constant index %d without a length guard on %s", k, short(bd))
 	}
 	id := P.Desc(idx)
-	// ---- sort.Search results and its predicate's parameter
-	if strings.HasPrefix(id, "call(sort.Search; call(builtin len; "+bd+")") {
-		if hasLit(guards, func(l Lit) bool {
-			return l.Kind == "lt" && l.Pos && P.Desc(l.X) == id && lenOf(l.Y) != nil && P.Desc(lenOf(l.Y)) == bd
-		}) {
-			return true, "0 <= sort.Search(len(x), …) and idx < len(x) guard"
-		}
-		return false, "sort.Search result used as index without `idx < len(x)` guard"
-	}
-	if strings.HasPrefix(id, "cbparam0(sort.Search; call(builtin len; "+bd+")") {
-		return true, "predicate of sort.Search(len(x), …) is called with 0 <= i < len(x) (documented)"
-	}
-	if strings.HasPrefix(id, "binop(-; call(sort.Search; call(builtin len; "+bd+")") && strings.HasSuffix(id, ", const(1))") {
-		sd := strings.TrimSuffix(strings.TrimPrefix(id, "binop(-; "), ", const(1))")
-		if hasLit(guards, func(l Lit) bool { return l.Kind == "lt" && l.Pos && P.Desc(l.X) == "const(0)" && P.Desc(l.Y) == sd }) {
-			return true, "idx-1 with 0 < idx <= len(x) (sort.Search contract)"
-		}
-		return false, "idx-1 without `idx > 0` guard"
-	}
-	// ---- last element: x[len(x)-1] under len(x) > 0
-	if id == "binop(-; call(builtin len; "+bd+"), const(1))" {
-		if c.lenGuardAbove(guards, base, 0) {
-			return true, "last element under len(x) > 0"
-		}
-		return false, "x[len(x)-1] without a non-empty guard"
-	}
-	// ---- counting loop over a slice made with the loop bound as length
-	if phi := inductionPhi(idx); phi != nil {
-		for _, l := range guards {
-			if l.Kind == "lt" && l.Pos && l.X == idx {
-				for _, r := range P.Resolve(base) {
-					if mk, ok := r.(*ssa.MakeSlice); ok && P.Desc(mk.Len) == P.Desc(l.Y) {
-						return true, "i < n in a counting loop from 0 over make([]T, n)"
-					}
-				}
-			}
-			// i <= E with E clamped below len(x), i starting at a clamped non-negative value
-			if l.Kind == "lt" && !l.Pos && l.Y == idx {
-				if c.clampedBelowLen(l.X, base) && c.nonNegativeStart(phi) {
-					return true, "start <= i <= end with start clamped to >= 0 and end clamped to <= len(x)-1"
-				}
-				return false, "loop `i <= end` where end is not clamped to len(x)-1 (or the start may be negative)"
-			}
-		}
-	}
-	// ---- explicit upper guard on this very index expression (lower bound: counting up from a constant)
-	if hasLit(guards, func(l Lit) bool {
-		return l.Kind == "lt" && l.Pos && P.Desc(l.X) == id && lenOf(l.Y) != nil && P.Desc(lenOf(l.Y)) == bd
-	}) {
-		if bo, ok := idx.(*ssa.BinOp); ok && bo.Op == token.SUB {
-			if phi := inductionPhi(bo.X); phi != nil {
-				if off, ok := constInt(bo.Y); ok && c.startAtLeast(phi, off) {
-					return true, "explicit `e < len(x)` guard; e = i - c with i counting up from >= c"
-				}
-			}
-		}
-		if phi := inductionPhi(idx); phi != nil && c.startAtLeast(phi, 0) {
-			return true, "explicit `i < len(x)` guard in a loop counting up from >= 0"
-		}
-	}
 	// ---- reviewed data-structure invariant
 	if fname == "(*util.IgnoreSet).Contains$2" || strings.HasPrefix(fname, "(*util.IgnoreSet).") {
 		if strings.Contains(bd, "util.IgnoreSet.Markers)") && strings.Contains(id, "util.IgnoreSet.CodeIndex)") {
 			return true, "reviewed invariant: every index stored in CodeIndex is len(Markers) at the moment its marker is appended and Markers only grows (IGNORESET/INDEXED)"
 		}
 	}
-	if fname == "util.matchesPathComponentWithSlash" {
-		return c.pathComponentReviewed(guards, id)
-	}
-	return false, "no discharge pattern matches index " + short(id) + " of " + short(bd)
-}
-
-func inductionPhi(v ssa.Value) *ssa.Phi {
-	phi, ok := v.(*ssa.Phi)
-	if !ok {
-		return nil
-	}
-	for _, e := range phi.Edges {
-		if bo, ok := e.(*ssa.BinOp); ok && bo.Op == token.ADD && bo.X == phi {
-			if k, ok := constInt(bo.Y); ok && k > 0 {
-				return phi
-			}
-		}
-	}
-	return nil
-}
-
-// startAtLeast: every non-increment edge of the induction phi is a constant >= k.
-func (c *Ctx) startAtLeast(phi *ssa.Phi, k int64) bool {
-	for _, e := range phi.Edges {
-		if bo, ok := e.(*ssa.BinOp); ok && bo.Op == token.ADD && bo.X == phi {
-			continue
-		}
-		n, ok := constInt(e)
-		if !ok || n < k {
-			return false
-		}
-	}
-	return true
-}
-
-// nonNegativeStart: the start value of the induction variable is a constant >= 0 or clamped: every leaf is
-// the constant 0 or selected under !(leaf < 0).
-func (c *Ctx) nonNegativeStart(phi *ssa.Phi) bool {
-	P := c.P
-	for _, e := range phi.Edges {
-		if bo, ok := e.(*ssa.BinOp); ok && bo.Op == token.ADD && bo.X == phi {
-			continue
-		}
-		for _, lf := range c.phiLeaves(e, nil, 0) {
-			if n, ok := constInt(lf.Val); ok {
-				if n < 0 {
-					return false
-				}
-				continue
-			}
-			ld := P.Desc(lf.Val)
-			if !hasLit(lf.Guards, func(l Lit) bool { return l.Kind == "lt" && !l.Pos && P.Desc(l.X) == ld && P.Desc(l.Y) == "const(0)" }) {
-				return false
-			}
-		}
-	}
-	return true
-}
-
-// clampedBelowLen: every leaf of e is len(x)-1 or is selected under leaf < len(x)  (i.e. !(leaf >= len(x))).
-func (c *Ctx) clampedBelowLen(e ssa.Value, base ssa.Value) bool {
-	P := c.P
-	bd := P.Desc(base)
-	for _, lf := range c.phiLeaves(e, nil, 0) {
-		ld := P.Desc(lf.Val)
-		if ld == "binop(-; call(builtin len; "+bd+"), const(1))" {
-			continue
-		}
-		if !hasLit(lf.Guards, func(l Lit) bool {
-			return l.Kind == "lt" && l.Pos && P.Desc(l.X) == ld && lenOf(l.Y) != nil && P.Desc(lenOf(l.Y)) == bd
-		}) {
-			return false
-		}
-	}
-	return true
-}
-
-// sliceReviewed: the slice expressions of truncateString / matchesPathComponentWithSlash need linear arithmetic;
-// the guards the argument rests on are checked to be present.
-func (c *Ctx) sliceReviewed(fn *ssa.Function, sl *ssa.Slice, guards []Lit) (bool, string) {
-	P := c.P
-	fname := FuncName(fn)
-	bd := P.Desc(sl.X)
-	has := func(pred func(Lit) bool) bool { return hasLit(guards, pred) }
-	lenX := "call(builtin len; " + bd + ")"
-	switch fname {
-	case "reporting.truncateString":
-		maxLen := P.Desc(fn.Params[1])
-		// all slices happen only when len(s) > maxLen
-		longer := has(func(l Lit) bool { return l.Kind == "lt" && l.Pos && P.Desc(l.X) == maxLen && P.Desc(l.Y) == lenX }) ||
-			has(func(l Lit) bool {
-				return l.Kind == "lt" && !l.Pos && P.Desc(l.X) == maxLen && P.Desc(l.Y) == lenX && false
-			})
-		if !longer {
-			// `if len(s) <= maxLen { return s }`  ==  !(maxLen < len(s)) on the return; site has +lt(maxLen, len(s))
-			return false, "slice of the line without the `len(s) > maxLen` guard"
-		}
-		hi, lo := "", ""
-		if sl.High != nil {
-			hi = P.Desc(sl.High)
-		}
-		if sl.Low != nil {
-			lo = P.Desc(sl.Low)
-		}
-		switch {
-		case lo == "" && hi == maxLen:
-			return true, "reviewed: s[:maxLen] under len(s) > maxLen"
-		case lo == "" && hi == "binop(-; "+maxLen+", const(3))":
-			if has(func(l Lit) bool {
-				return l.Kind == "lt" && !l.Pos && strings.HasPrefix(P.Desc(l.X), maxLen) == false && P.Desc(l.Y) == "const(3)" || l.Kind == "lt" && l.Pos && P.Desc(l.X) == "const(3)" && P.Desc(l.Y) == maxLen
-			}) {
-				return true, "reviewed: s[:maxLen-3] under 3 < maxLen < len(s)"
-			}
-			return false, "s[:maxLen-3] without the maxLen > 3 guard"
-		case hi == "" && lo == "binop(+; binop(-; "+lenX+", "+maxLen+"), const(3))":
-			return true, "reviewed: s[len(s)-maxLen+3:] under len(s) > maxLen (0 < low <= len(s) for maxLen > 3)"
-		case lo != "" && hi != "":
-			// s[start:end] with start clamped >= 0 and end clamped <= len(s), start <= end since before+after >= 0
-			okLo := true
-			for _, lf := range c.phiLeaves(sl.Low, nil, 0) {
-				if n, ok := constInt(lf.Val); ok && n >= 0 {
-					continue
-				}
-				ld := P.Desc(lf.Val)
-				if !hasLit(lf.Guards, func(l Lit) bool { return l.Kind == "lt" && !l.Pos && P.Desc(l.X) == ld && P.Desc(l.Y) == "const(0)" }) {
-					okLo = false
-				}
-			}
-			okHi := true
-			for _, lf := range c.phiLeaves(sl.High, nil, 0) {
-				ld := P.Desc(lf.Val)
-				if ld == lenX {
-					continue
-				}
-				if !hasLit(lf.Guards, func(l Lit) bool { return l.Kind == "lt" && !l.Pos && P.Desc(l.X) == lenX && P.Desc(l.Y) == ld }) {
-					okHi = false
-				}
-			}
-			if okLo && okHi {
-				return true, "reviewed: s[start:end] with start clamped to >= 0 and end clamped to <= len(s) (start <= pos0 <= end)"
-			}
-			return false, "s[start:end] whose bounds are not clamped to [0, len(s)]"
-		}
-	case "util.matchesPathComponentWithSlash":
-		return c.pathComponentReviewed(guards, "slice")
-	}
-	return false, "slice expression outside the reviewed functions: " + short(bd)
-}
-
-// pathComponentReviewed: fullPath[start:], fullPath[start-1] with start = len(fullPath)-len(shortName) need
-// len(fullPath) >= len(shortName)+1, which the function checks first.
-func (c *Ctx) pathComponentReviewed(guards []Lit, what string) (bool, string) {
-	P := c.P
-	ok := hasLit(guards, func(l Lit) bool {
-		if l.Kind != "lt" || l.Pos {
-			return false
-		}
-		// !(len(fullPath) < len(shortName)+1)
-		return strings.HasPrefix(P.Desc(l.X), "call(builtin len; ") && strings.HasPrefix(P.Desc(l.Y), "binop(+; call(builtin len; ") && strings.HasSuffix(P.Desc(l.Y), ", const(1))")
-	})
-	if ok {
-		return true, "reviewed: under len(fullPath) >= len(shortName)+1, start = len(fullPath)-len(shortName) >= 1 (" + what + ")"
-	}
-	return false, "suffix comparison without the `len(fullPath) >= len(shortName)+1` guard"
+	return false, "0 <= i < len(x) is not implied by the index computation and the guards: index " + short(id) + " of " + short(bd)
 }
